@@ -16,6 +16,7 @@ def run(ck):
                          % (4 if q else 6))
     ck.model("MC_Reshape.tla", cfg, timeout=3000)
     progs = fuse.reshape_programs(ck.seed, 200 if q else 3000)
+    progs += fuse.reshape_twin_programs(ck.seed, 24 if q else 400, tids=gen.Tids(300000))
     # routine level: the whole domain of the axis-matching routine (all shapes with <= 5 axes over {1,2,3,4,6}),
     # quick: all shapes with <= 3 axes and a seeded tenth of the larger ones
     shapes = [list(s) for n in range(1, 6) for s in itertools.product((1, 2, 3, 4, 6), repeat=n)]
